@@ -43,12 +43,22 @@ def _lookup(e, env):
 
 
 def _ev(e, env):
+    try:
+        return _ev0(e, env)
+    except (ValueError, OverflowError, ZeroDivisionError):
+        # math domain error / overflow inside a library function: not a number
+        return NAN
+
+
+def _ev0(e, env):
     if isinstance(e, (int, float)):
         return float(e)
+    if e is sympy.zoo or e is sympy.nan or e is sympy.I:
+        return NAN  # complex / undefined results are 'not a (real) number' for every comparison
     if e.is_Symbol:
         return float(_lookup(e, env))
     if e.is_Number:
-        if e is sympy.nan:
+        if e is sympy.nan or e is sympy.zoo:
             return NAN
         if e is sympy.oo:
             return math.inf
